@@ -368,10 +368,18 @@ def c07_oracle(sc):
         elif k == 'map':
             if not h.ready():
                 return ('map job %d unresolved after join()' % idx, f18)
-            exp = [FN[fn](x) for x in a]
-            if not h._success or h._value != exp:
-                return 'map job %d resolved as %r, expected %r' % (
-                    idx, h._value, exp)
+            each = [expected(fn, x) for x in a]
+            if not all(e[0] for e in each):
+                # a failed map reports an error raised by one of its inputs
+                if h._success or h._value.type not in [
+                        e[1] for e in each if not e[0]]:
+                    return ('map job %d with failing inputs resolved as %r'
+                            % (idx, (h._success, h._value)))
+            else:
+                exp = [e[1] for e in each]
+                if not h._success or h._value != exp:
+                    return 'map job %d resolved as %r, expected %r' % (
+                        idx, h._value, exp)
         else:
             vals = r.get('imap_vals', {}).get(idx)
             if vals is None:
@@ -389,8 +397,14 @@ def c07_oracle(sc):
     if running:
         return 'join() returned but pool threads still run: %r' % (running,)
     if r['join_time'] >= 29.0:
+        sig = None
+        if any(k == 'map' and h.ready() and not h._success
+               for k, fn, a, h in r['handles']):
+            # results of the remaining parts of a failed map find no cache
+            # entry; on_ready returns before crediting their senders
+            sig = 'F39:results-of-a-failed-map-are-not-credited'
         return ('join() took %.1f virtual seconds: a worker waited out its '
-                'result-consumption guard' % r['join_time'])
+                'result-consumption guard' % r['join_time'], sig)
     if 'late' in r and r['late'] is not None:
         return 'a job offered after close() was accepted'
     h2 = r.get('second_handle')
@@ -511,7 +525,10 @@ def explore_cfg(arg):
                               x.extra.get('signature'), x.log[-25:]))
             if len([k for k in found if not k[1]]) > 2:
                 break
-            continue
+            if not (x.extra.get('signature') and cfg.get('expand_known')):
+                continue
+            # a known finding on this schedule: the schedules below it are
+            # explored all the same (another violation must not hide)
         kids = explore.children(x, len(p), bound)
         stack.extend(kids if want else reversed(kids))
     d = st.as_dict()
